@@ -78,7 +78,7 @@ type Transport struct {
 	WriteErrAfter int
 	// WriteErr: what a failing write returns (nil: ErrSimWrite)
 	WriteErr error
-	OnClose       CloseBehaviour
+	OnClose  CloseBehaviour
 
 	Delivered int
 	Writes    [][]byte
@@ -482,4 +482,12 @@ func (t *Transport) inject(atoms [][]byte, logged bool) {
 		t.Events = append(t.Events, Event{Kind: 'J', W: all})
 	}
 	t.cond.Broadcast()
+}
+
+// WithLock runs f while no Write (and so no device reaction) is in progress: for harness code that
+// looks at the device model from another goroutine.
+func (t *Transport) WithLock(f func()) {
+	t.mu.Lock()
+	defer t.mu.Unlock()
+	f()
 }
